@@ -156,7 +156,9 @@ def run(run):
                 if hasattr(d, "reset_state"):
                     d.reset_state()
                 try:
-                    llr = d(Y, arg).reshape(len(soft_pts), -1).double()
+                    if isinstance(nv, float) and nv >= 1.0:
+                        Y = Y.clone().requires_grad_(True)        # received symbols that are tracked by autograd (the output of a trainable stage)
+                    llr = d(Y, arg).detach().reshape(len(soft_pts), -1).double()
                 except Exception as ex:
                     tid += 1
                     evs.append({"ev": "Hard", "tid": tid, "y": [0, 0], "out": -2, "error": repr(ex)[:120], "nv": str(nv)})
